@@ -1,6 +1,7 @@
 package j2p
 
 import (
+	"errors"
 	"encoding/json"
 	"math"
 	"strconv"
@@ -35,6 +36,7 @@ const (
 	jStr
 	jArr
 	jObj
+	jFail // the parser stops here with a syntax error (no callback)
 )
 
 type jv struct {
@@ -62,6 +64,8 @@ func (o *jv) add(k string, v *jv) *jv {
 
 func verifVisit(v *visitorUserNode, n *jv) error {
 	switch n.kind {
+	case jFail:
+		return errVerifSyntax
 	case jNull:
 		return v.OnNull()
 	case jBool:
@@ -75,6 +79,9 @@ func verifVisit(v *visitorUserNode, n *jv) error {
 	case jArr:
 		if err := v.OnArrayBegin(16); err != nil {
 			if err == ast.VisitOPSkip {
+				if verifHasFail(n) {
+					return errVerifSyntax // the parser's skip still scans the text
+				}
 				return v.OnArrayEnd()
 			}
 			return err
@@ -88,6 +95,9 @@ func verifVisit(v *visitorUserNode, n *jv) error {
 	default:
 		if err := v.OnObjectBegin(16); err != nil {
 			if err == ast.VisitOPSkip {
+				if verifHasFail(n) {
+					return errVerifSyntax
+				}
 				return v.OnObjectEnd()
 			}
 			return err
@@ -103,6 +113,20 @@ func verifVisit(v *visitorUserNode, n *jv) error {
 		return v.OnObjectEnd()
 	}
 }
+
+func verifHasFail(n *jv) bool {
+	if n.kind == jFail {
+		return true
+	}
+	for _, e := range n.elems {
+		if verifHasFail(e) {
+			return true
+		}
+	}
+	return false
+}
+
+var errVerifSyntax = errors.New("verif: syntax error reported by the parser")
 
 // verifConvert is BinaryConv.unmarshal with the parser replaced by verifVisit.
 func verifConvert(desc *proto.TypeDescriptor, doc *jv, opts conv.Options) ([]byte, error) {
@@ -217,6 +241,25 @@ func VerifC09_Scalar() {
 		bs := vrt.Bytes(2)
 		doc.add(key, jS(vrt.B64Text(bs)))
 		want = gpw.AppendBytes(want, bs)
+	case proto.DOUBLE, proto.FLOAT:
+		if vrt.Param("INTLIT") == 0 {
+			goto realLiteral
+		}
+		{
+			// an integer literal for a floating-point field reaches the visitor as OnInt64
+			tab := []int64{0, 1, -1, 16777216, 16777217, -16777217, 1<<40 + 1, 1700000000123, -(1 << 53), 1<<53 - 1}
+			v := tab[vrt.Conc(int(vrt.U8())%len(tab))]
+			doc.add(key, jI(v))
+			if k == proto.DOUBLE {
+				want = gpw.AppendFixed64(want, math.Float64bits(float64(v)))
+			} else {
+				want = gpw.AppendFixed32(want, math.Float32bits(float32(v)))
+			}
+		}
+		goto tail
+	}
+realLiteral:
+	switch k {
 	case proto.DOUBLE:
 		bits := vrt.U64()
 		vrt.Assume(bits>>52&0x7ff != 0x7ff) // JSON numbers are finite
@@ -277,6 +320,7 @@ func VerifC09_Scalar() {
 			want = gpw.AppendVarint(want, uint64(v))
 		}
 	}
+tail:
 	if vrt.Bool() {
 		doc.add("b", jB(true))
 		want = gpw.AppendVarint(gpw.AppendTag(want, 11, gpw.VarintType), 1)
@@ -503,6 +547,20 @@ func VerifC09_Mismatch() {
 		doc.add("rp", jO().add("q", jI(1))) // object for repeated
 	case 14:
 		doc.add("ms", jA(jI(1))) // array for map
+	case 15:
+		doc.add("rp", jA(jB(true), jB(false))) // bool elements in int list
+	case 16:
+		doc.add("rs", jA(jS("x"), jB(true))) // bool element in string list
+	case 17:
+		doc.add("rp", jA(jI(1), jB(false))) // bool element after a number
+	case 18:
+		doc.add("rs", jA(jI(1))) // number element in string list
+	case 19:
+		doc.add("lm", jA(jB(true))) // bool element in message list
+	case 20:
+		doc.add("ms", jO().add("k", jB(true))) // bool for an int32 map value
+	case 21:
+		doc.add("mi", jO().add("1", jI(5))) // number for a string map value
 	}
 	if vrt.Bool() {
 		doc.add("b", jB(true))
@@ -618,4 +676,42 @@ func VerifC09_Depth() {
 	}
 	fs, ok := vrt.PFields(b)
 	vrt.Assert(ok && len(fs) == 1 && fs[0].Num == 2 && fs[0].Val == uint64(leaf), "C09.depth.leaf")
+}
+
+func init() { vrt.Register("VerifC09_Reuse", VerifC09_Reuse) }
+
+// VerifC09_Reuse: a conversion that fails at FAILAT (the parser reports a syntax error while a known member,
+// an unknown member, a nested object or an array is pending) is followed by the conversion of a valid
+// document with the pooled visitor it left behind: the second result is the denoted message.
+func VerifC09_Reuse() {
+	desc := verifC09M(proto.INT32)
+	opts := conv.Options{DisallowUnknownField: false}
+	bad := jO().add("a", jI(1))
+	switch vrt.Param("FAILAT") {
+	case 0:
+		bad.add("extra", &jv{kind: jFail}) // value of an unknown member
+	case 1:
+		bad.add("sName", &jv{kind: jFail}) // value of a known member
+	case 2:
+		bad.add("in", jO().add("x", &jv{kind: jFail})) // inside a nested message
+	case 3:
+		bad.add("rp", jA(jI(1), &jv{kind: jFail})) // inside a packed list
+	case 4:
+		bad.add("extra", jO().add("q", &jv{kind: jFail})) // inside an unknown (skipped) object
+	case 5:
+		bad.add("ms", jO().add("k", &jv{kind: jFail})) // inside a map
+	}
+	_, err := verifConvert(desc, bad, opts)
+	vrt.Assert(err != nil, "C09.reuse.first-fails")
+	a := int32(vrt.U32())
+	good := jO().add("a", jI(int64(a))).add("sName", jS("p"))
+	want := gpw.AppendVarint(gpw.AppendTag(nil, 1, gpw.VarintType), uint64(int64(a)))
+	want = gpw.AppendBytes(gpw.AppendTag(want, 2, gpw.BytesType), []byte("p"))
+	out, err := verifConvert(desc, good, opts)
+	vrt.Assert(err == nil, "C09.reuse.second-converts")
+	if err != nil {
+		return
+	}
+	vrt.Reach("converted")
+	verifC09Check(out, want, "C09.reuse.second")
 }
